@@ -84,6 +84,17 @@ def json_schema(rng: Rng, n_defs: int | None = None) -> dict:
     root = _object(rng, names, 2)
     root["title"] = "Root"
     root["definitions"] = defs
+    if rng.chance(1, 3):
+        # sections outside `definitions`: their members are only reached through "reserved" JSON pointers, parsed in a
+        # second phase whose order is decided by a set of pointer strings; equal member names make the order visible
+        pool = rng.sample(names, min(len(names), 2)) + rng.sample(["Shared", "Common", "Extra", "Zeta", "Alpha"], 3)
+        for sec in rng.sample(["shared", "x-parts", "components"], rng.range(1, 2)):
+            members = rng.sample(pool, rng.range(2, 4))
+            root[sec] = {m: _object(rng, names, 1) for m in members}
+            for m in members:
+                holder = root if rng.chance(1, 2) else defs[rng.choice(names)]
+                if isinstance(holder.get("properties"), dict):
+                    holder["properties"][f"via_{sec.replace('-', '_')}_{m.lower()}"] = {"$ref": f"#/{sec}/{m}"}
     root["$schema"] = "http://json-schema.org/draft-07/schema#"
     return root
 
